@@ -441,6 +441,12 @@ class Check:
             self.fails.append(self._trace_rejection(name, res, trace_path))
         else:
             self.traces += n_traces
+            # accepted traces are not kept (they can be several GB); a rejected one stays for the replay file
+            for fp in glob.glob(trace_path + "*") + glob.glob(os.path.join(WORK, tag + ".ndjson*")):
+                try:
+                    os.remove(fp)
+                except OSError:
+                    pass
         log("[%s]   %d traces / %d events, TLC exit %s (%s), %.1fs" %
             (self.prop, n_traces, n_events, res.exit, "REJECTED" if rejected else "accepted", res.wall))
         return res, info, trace_path
